@@ -16,6 +16,8 @@ P = "param.parameterized."
 
 
 def run(ctx):
+    ctx.rule("R04.w", "a copy coalesces like its original (shared with R17.i): Parameterized.__setstate__ re-creates a watcher listed under several parameters as ONE object -- the batch queue "
+                      "tells watchers apart by identity, so two objects mean two calls for one batch", floor=1)
     ctx.rule("R04.v", "slot dispatch model (shared with R06.t): watchers of a Parameter attribute are dispatched through the namespace of the Parameter's OWNER, so an open batch on an "
                       "instance defers them like value watchers", floor=1)
     ctx.rule("R04.k", "`param.update(...)` used as a context manager restores the previous links on exit: Parameters.update, interpreted abstractly on six call forms (keywords / dict / dict+keywords / "
@@ -28,7 +30,7 @@ def run(ctx):
     ctx.rule("R04.c", "coalescing: a watcher already queued (by identity) is not queued again, a different one is; the flush "
                       "empties both queues before running the watchers and loops until no event is left (which event each watcher receives: flush model, R04.h)", floor=3)
     ctx.rule("R04.g", "the flush runs the queued watchers in precedence order on every path (stable sort of the queue)", floor=1)
-    ctx.rule("R04.i", "every writer that extends the watcher queue keeps it free of duplicates by identity (an append is guarded by an identity test, a merge filters by identity)", floor=2)
+    ctx.rule("R04.i", "every writer that extends the watcher queue keeps it free of duplicates by identity (an append is guarded by an identity test, a merge filters by identity)", floor=1)
     ctx.rule("R04.d", "discard_events restores copies of the queues taken before the body (not aliases)", floor=2)
     ctx.rule("R04.e", "update(...) captures the previous values (of every given key) and links before applying, and _ParametersRestorer.__exit__ re-applies them through _update", floor=3)
     ctx.rule("R04.f", "trigger re-submits the CURRENT values of the named parameters (plus the transient True of Events) under the trigger flag", floor=1)
@@ -183,7 +185,7 @@ def run(ctx):
                 ctx.fail("R04.i", g, st, "`%s` extends the watcher queue without filtering out watchers that are already queued (by identity): such a watcher runs twice at the flush" % norm(st)[:80],
                          key="%s::duplicate-queue-entries" % g.qualname,
                          input="with batch_call_watchers(p): p.a = 1; p.param.trigger('a')  -> every watcher of a runs twice at the flush")
-    ctx.require(n_ext >= 2, "fewer than 2 sites extending the watcher queue found (%d)" % n_ext)
+    ctx.require(n_ext >= 1, "fewer than 1 site extending the watcher queue found (%d)" % n_ext)
 
     # ------------------------------------------------------------ R04.d
     de = ctx.repo.func(P + "discard_events")
@@ -325,6 +327,8 @@ def run(ctx):
     update_restorer_refs(ctx, "R04.k")
     from checks.shared import trigger_event_model
     trigger_event_model(ctx, "R04.v")
+    from checks.c17 import setstate_watcher_table
+    setstate_watcher_table(ctx, "R04.w")
 
     from checks.shared import restorer_model
     restorer_model(ctx, "R04.r")
